@@ -179,6 +179,14 @@ impl ValveProtocol {
                 .ok_or_else(|| PacketBad.context("No split packet"))?;
 
             for chunk_packet in chunk_packets {
+                // A packet of another response (a late duplicate, for instance) must not be merged in.
+                if chunk_packet.header != main_packet.header
+                    || chunk_packet.id != main_packet.id
+                    || chunk_packet.total != main_packet.total
+                {
+                    return Err(PacketBad.context("Split packets of different responses"));
+                }
+
                 main_packet.payload.extend(chunk_packet.payload);
             }
 
